@@ -33,6 +33,14 @@ class Lemmas:
             # L-COUNT: counts of queued samples / loop iterations over a queue, + 1  (assumption A1: fewer than 2^32 samples per track, fragments per muxer)
             if one and self.is_count(b, a, ob):
                 return self.note("L-COUNT") + ": a count of queue elements / iterations (+1); bounded under assumption A1 (< 2^32 samples per track and fragments per muxer)"
+        if k == "overflow:Sub":
+            m = t["msg"]
+            a, c = sym.expr(b, m["a"]), sym.expr(b, m["b"])
+            if a[0] == "const" and isinstance(a[1], int) and c[0] == "load" and isinstance(c[1], str) and c[1].startswith("arg1.") and c[1].count(".") == 1:
+                fld = c[1].split(".")[1]
+                hi = self.wrap_counter(fld, ob)
+                if hi is not None and hi <= a[1]:
+                    return self.note("L-WRAP") + ": field `%s` is a wrapping counter: constructed 0, only ever `+= 1` immediately followed by `if %s == %d { %s = 0 }`, so it is <= %d at every method entry; no increment precedes this site" % (fld, fld, hi + 1, fld, hi)
         if k == "call:with":
             # L-TLS: LocalKey::with panics only during/after thread-local destruction; the closure must not re-enter the same key
             clo = self.closure_arg(b, t)
@@ -47,12 +55,200 @@ class Lemmas:
             clo = self.closure_arg(b, t)
             if clo and self.total_no_panic(clo):
                 return self.note("L-SORT") + ": key closure is panic-free and returns a tuple of integers (total order)"
+        if k in ("call:index", "call:index_mut"):
+            l = self.schedule_index(ob, b, t)
+            if l:
+                return l
         if k == "call:panic_fmt" and mir.norm(ob.fn) == "invariant_ppt::__assert_invariant_impl":
             # the panic inside the invariant helper is accounted for at every call site (kind `invariant`)
             gs = _guards(b, ob.bb)
             if any(d[0] == "arg" and d[1] == 1 and tk in (("eq", "0"),) for (_s, d, tk) in gs):
                 return self.note("L-INVIMPL") + ": panics iff its `condition` argument is false; every call site is its own obligation"
         return None
+
+    # ------------------------------------------------------------------------------------------
+    def schedule_summary(self, fn):
+        """for a local function returning a Vec of (key, Kind, index) tuples: {variant name: queue field} when every push is
+        (_, Kind::<V>, idx) with idx the enumerate index of a loop over `self.<queue>` and the vector is otherwise only sorted"""
+        cache = self.__dict__.setdefault("_sched", {})
+        if fn in cache:
+            return cache[fn]
+        cache[fn] = None
+        b = self.u.bodies[fn]
+        cx = A.Ctx(b, self.u)
+        out = {}
+        vecs = set()
+        others = []
+        for bb, t, name, info in mir.calls(b):
+            last = mir.norm(name or "").split("::")[-1]
+            if last == "push" and "Vec" in (name or "") and len(t["args"]) == 2:
+                recv = sym.expr(b, t["args"][0])
+                val = sym.expr(b, t["args"][1])
+                if not (val[0] == "agg" and val[1] == "tuple" and len(val[3]) == 3 and val[3][1][0] == "agg"):
+                    return None
+                kind = str(val[3][1][1]).split("::")[-1]
+                ei = cx.enum_index(val[3][2])
+                if ei is None or ei[0] is None:
+                    return None
+                base = ei[0]
+                while base[0] == "ref":
+                    base = base[1]
+                if not (base[0] in ("refplace", "load") and isinstance(base[1], str) and base[1].startswith("arg1.") and base[1].count(".") == 1):
+                    return None
+                q = base[1].split(".")[1]
+                if out.get(kind, q) != q:
+                    return None
+                out[kind] = q
+                vecs.add(sym.show(recv))
+            elif any(a.get("k") in ("copy", "move") and mir._mut_ptr_arg(a["place"]["ty"]) for a in t["args"]):
+                others.append((last, [sym.show(sym.expr(b, a)) for a in t["args"] if a.get("k") in ("copy", "move") and mir._mut_ptr_arg(a["place"]["ty"])]))
+        if len(vecs) != 1 or not out:
+            return None
+        vtxt = list(vecs)[0]
+        for last, ptrs in others:
+            if any(vtxt.lstrip("&") in p_ for p_ in ptrs) and not (last.startswith("sort") or last == "deref_mut"):
+                return None
+        # the pushed-to vector is what is returned
+        r0 = sym.show(sym.expr_local(b, 0))
+        if r0.strip("&[]") not in list(vecs)[0]:
+            return None
+        cache[fn] = out
+        return out
+
+    def schedule_index(self, ob, b, t):
+        base, ix = sym.expr(b, t["args"][0]), sym.expr(b, t["args"][1])
+        x = base
+        while x[0] == "ref":
+            x = x[1]
+        if not (x[0] in ("refplace", "load") and isinstance(x[1], str) and x[1].startswith("arg1.") and x[1].count(".") == 1):
+            return None
+        q = x[1].split(".")[1]
+        txt = sym.show(ix)
+        if not txt.rstrip("]").endswith(".2"):
+            return None
+        # the producer: a call to a local function somewhere under the index expression, or defining the local it is loaded from
+        prod = None
+        for y in sym.walk(ix):
+            if isinstance(y, tuple) and y and y[0] == "call" and len(y) > 3 and y[3] in self.u.bodies:
+                prod = y[3]
+        if prod is None and ix[0] == "load" and isinstance(ix[1], str) and ix[1].startswith("_"):
+            try:
+                l = int(ix[1][1:].split(".")[0])
+            except ValueError:
+                return None
+            e = sym.expr_local(b, l)
+            while e[0] == "ref":
+                e = e[1]
+            if e[0] == "call" and len(e) > 3 and e[3] in self.u.bodies:
+                prod = e[3]
+        if prod is None:
+            return None
+        summ = self.schedule_summary(prod)
+        if not summ:
+            return None
+        kinds = [kname for kname, qq in summ.items() if qq == q]
+        if len(kinds) != 1:
+            return None
+        # the site is guarded by `element.1 is <that kind>`
+        def core(t_):
+            return t_[1:-1] if (t_.startswith("[") and t_.endswith("]")) else t_
+        elem = core(txt)[:-2]
+        adt = None
+        ok = False
+        for (s_, d, tk) in _guards(b, ob.bb):
+            if d[0] != "discr":
+                continue
+            dt = sym.show(d[1])
+            if core(dt) == elem + ".1":
+                ty = None
+                for y in sym.walk(d[1]):
+                    pass
+                # variant index of the kind
+                for a in self.u.adts.values():
+                    names = [v["name"] for v in a.get("variants", [])]
+                    if a.get("kind") == "Enum" and set(summ) <= set(names) and len(names) == len(summ):
+                        adt = names
+                if adt is None:
+                    return None
+                want = str(adt.index(kinds[0]))
+                if tk == ("eq", want) or (tk[0] == "ne" and len(adt) == 2 and tk[1] == [str(1 - int(want))]):
+                    ok = True
+        if not ok:
+            return None
+        # the queue's length cannot change in this function
+        for (bb, i, (root, path), why, node) in self.st.sites.get(ob.fn, []):
+            if root == ("arg", 1) and path[:1] == (q,) and len(path) == 1:
+                return None
+        return self.note("L-SCHEDULE") + ": index comes from %s, whose entries (_, %s, i) are pushed with i = enumerate index over self.%s; site guarded by kind == %s; the queue is not resized here" % (mir.norm(prod).split("::")[-1], kinds[0], q, kinds[0])
+
+    def wrap_counter(self, fld, ob):
+        """max value of self.<fld> at method entries when it is a modulo-M counter (see L-WRAP); None otherwise"""
+        M = None
+        owner = self.u.bodies[ob.fn].get("impl_self")
+        for p, b in self.u.bodies.items():
+            if b["in_test_cfg"]:
+                continue
+            # aggregate constructions of any struct with that field: must be constant 0
+            for blk in b["blocks"]:
+                for st_ in blk["stmts"]:
+                    if st_["k"] == "assign" and st_["rv"]["k"] == "aggregate" and fld in (st_["rv"].get("fields") or []):
+                        e = sym.expr(b, dict(zip(st_["rv"]["fields"], st_["rv"]["ops"]))[fld])
+                        if not (e[0] == "const" and e[1] == 0):
+                            return None
+            incs, resets = [], []
+            for (bb, i, (root, path), why, node) in self.st.sites.get(p, []):
+                if not (path and path[-1] == fld):
+                    continue
+                if not (why.startswith("assign") and node.get("k") == "assign"):
+                    if why.startswith("call ") or why.startswith("closure "):
+                        continue          # accounted for in the callee
+                    return None
+                e = sym.expr_rv(b, node["rv"])
+                if e[0] == "const" and e[1] == 0:
+                    resets.append(bb)
+                elif e[0] == "proj" and e[2] == "0" and e[1][0] == "bin" and e[1][1] == "AddWithOverflow" and e[1][2][0] == "load" and e[1][2][1].endswith("." + fld) and e[1][3][:2] == ("const", 1):
+                    incs.append(bb)
+                else:
+                    return None
+            if not incs:
+                if resets:
+                    return None
+                continue
+            if b.get("impl_self") != owner:
+                return None
+            dom = mir.dominators(b)
+            for ib in incs:
+                # after the increment every path to a return passes `switch (fld == M)`, whose M-arm resets before returning
+                sw = None
+                for blk in b["blocks"]:
+                    t = blk["term"]
+                    if t["k"] == "switch" and ib in dom.get(blk["i"], ()) and blk["i"] != ib or (t["k"] == "switch" and blk["i"] == ib):
+                        d = sym.expr(b, t["discr"])
+                        if d[0] == "bin" and d[1] == "Eq" and d[2][0] == "load" and d[2][1].endswith("." + fld) and d[3][0] == "const":
+                            sw = (blk["i"], d[3][1], t)
+                            break
+                if sw is None:
+                    return None
+                sbb, mval, t = sw
+                if M not in (None, mval):
+                    return None
+                M = mval
+                rets = [x["i"] for x in b["blocks"] if x["term"]["k"] == "return"]
+                for s_ in mir.succs(b, ib):
+                    if ib != sbb and any(r in mir.reachable(b, [s_], avoid=(sbb,)) for r in rets):
+                        return None
+                true_tgt = [tgt for v, tgt in t["arms"] if v != "0"] or [t["otherwise"]]
+                if any(v == "0" for v, _ in t["arms"]):
+                    true_tgt = [t["otherwise"]]
+                for tt in true_tgt:
+                    if any(r in mir.reachable(b, [tt], avoid=tuple(resets)) for r in rets) and tt not in resets:
+                        return None
+                # the obligation site is not after an increment
+                if p == ob.fn and any(ob.bb in mir.reachable(b, [s_]) for s_ in mir.succs(b, ib)):
+                    return None
+        if M is None:
+            return None
+        return M - 1
 
     def try_loop(self, p, header, latch, cls, why):
         b = self.u.bodies[p]
@@ -162,6 +358,27 @@ class Lemmas:
             ok, h = cx.prove_le0(old - new + A.Lin(1), bb)
             if not ok:
                 return False
+            # bounded: the new cursor does not pass the end of a buffer held by the iterator
+            bounded = False
+            adt = self.u.adts.get(b.get("impl_self", "").split("<")[0]) if hasattr(self.u, "adts") else None
+            names = set()
+            for x in sym.walk(e):
+                if isinstance(x, tuple) and len(x) > 1 and x[0] in ("load", "refplace") and isinstance(x[1], str) and x[1].startswith("arg1.") and x[1].count(".") == 1:
+                    names.add(x[1])
+            for (s_, d_, tk_) in _guards(b, bb):
+                for x in sym.walk(d_):
+                    if isinstance(x, tuple) and len(x) > 1 and x[0] in ("load", "refplace") and isinstance(x[1], str) and x[1].startswith("arg1.") and x[1].count(".") == 1:
+                        names.add(x[1])
+            for nm in sorted(names):
+                if nm == "arg1." + fld:
+                    continue
+                ln = cx.atom(("len", nm), 0, A.LEN_MAX)
+                okb, _h = cx.prove_le0(new - ln, bb, entry=True)
+                if okb:
+                    bounded = True
+                    break
+            if not bounded:
+                return False
             ok_any = True
         return ok_any
 
@@ -169,3 +386,89 @@ class Lemmas:
 def _guards(b, bb):
     from .. import guards
     return guards.guards_of(b, bb)
+
+
+# ==================================================================================================
+# fact hooks (facts about opaque expressions handed to the entailment engine)
+# ==================================================================================================
+_ITEM = {}
+
+
+def item_header_lemma(u, nextfn):
+    """L-OBUITEM: the local iterator's Some((info, slice)) exits return slice = X[..info.total_size] where info is the value
+    produced by a local parser whose aggregate sets total_size = header_size + payload_size (checked add): then
+    info.header_size <= len(slice).  Returns the (header field, total field) names or None."""
+    if nextfn in _ITEM:
+        return _ITEM[nextfn]
+    _ITEM[nextfn] = None
+    from .. import flow
+    b = u.bodies[nextfn]
+    oks = [e for e in flow.exits(b) if e["kind"] == "ok"]
+    if not oks:
+        return None
+    total = parser = None
+    for ex in oks:
+        v = sym.expr_rv(b, ex["node"]["rv"])
+        if not (v[0] == "agg" and str(v[1]).endswith("Option::Some") and v[3] and v[3][0][0] == "agg" and v[3][0][1] == "tuple" and len(v[3][0][3]) == 2):
+            return None
+        info, sl = v[3][0][3]
+        if not (sl[0] == "call" and sl[1].split("::")[-1] == "index" and len(sl[2]) == 2 and sl[2][1][0] == "agg" and "RangeTo::" in str(sl[2][1][1])):
+            return None
+        end = sl[2][1][3][0]
+        if not (end[0] == "proj" and end[1] == info and isinstance(end[2], str)):
+            return None
+        x = info
+        while x[0] == "proj":
+            x = x[1]
+        while x[0] == "call" and x[1].endswith("Try>::branch") and x[2]:
+            x = x[2][0]
+        if not (x[0] == "call" and len(x) > 3 and x[3] in u.bodies):
+            return None
+        if total not in (None, end[2]) or parser not in (None, x[3]):
+            return None
+        total, parser = end[2], x[3]
+    pb = u.bodies[parser]
+    hdr = None
+    n = 0
+    for blk in pb["blocks"]:
+        for st in blk["stmts"]:
+            if st["k"] == "assign" and st["rv"]["k"] == "aggregate" and total in (st["rv"].get("fields") or []):
+                d = dict(zip(st["rv"]["fields"], st["rv"]["ops"]))
+                te = sym.expr(pb, d[total])
+                if not (te[0] == "proj" and te[2] == "0" and te[1][0] == "bin" and te[1][1] == "AddWithOverflow"):
+                    return None
+                cand = [f for f, op in d.items() if f != total and sym.expr(pb, op) == te[1][2]]
+                cx = A.Ctx(pb, u)
+                other = cx.interval(te[1][3])
+                if len(cand) != 1 or other is None or other[0] < 0:
+                    return None
+                if hdr not in (None, cand[0]):
+                    return None
+                hdr = cand[0]
+                n += 1
+    if n == 0 or hdr is None:
+        return None
+    _ITEM[nextfn] = (hdr, total)
+    return _ITEM[nextfn]
+
+
+def _hook_item(cx, e, me):
+    # e = <next()>.as Some.0.0.<header field>
+    if cx.u is None or not (e[0] == "proj" and isinstance(e[2], str)):
+        return
+    b1 = e[1]
+    if not (b1[0] == "proj" and b1[2] == "0" and b1[1][0] == "proj" and b1[1][2] == "0" and b1[1][1][0] == "proj" and str(b1[1][1][2]).startswith("as Some")):
+        return
+    root = b1[1][1][1]
+    if not (root[0] == "call" and len(root) > 3 and root[3] in cx.u.bodies and root[1].endswith("::next")):
+        return
+    lem = item_header_lemma(cx.u, root[3])
+    if lem is None or e[2] != lem[0]:
+        return
+    sl = ("proj", b1[1], "1")
+    k = cx.len_key(sl)
+    cx.extra.append(me - cx.atom(k, 0, A.LEN_MAX))
+    A.USED_LEMMAS["L-OBUITEM"] = A.USED_LEMMAS.get("L-OBUITEM", 0) + 1
+
+
+A.FACT_HOOKS.append(_hook_item)
